@@ -32,6 +32,8 @@ PROP_KINDS = {
     "bool": ("bool", ["True", "False"], [True, False]),
     "ostr": ("str | None", ["None", '"o"'], [None, "o"]),
     "tint": ("tuple[int, ...]", ["()", "(1, 2)"], [[], [1, 2]]),
+    # a local non-node type (an enum) -- a serializable class of the same name may get registered elsewhere
+    "unit": ("GUnit", ["GUnit.A", "GUnit.B"], ["A", "B"]),
 }
 CHILD_KINDS = {
     "late": "GLate | None",  # forward reference to a class that is defined only later in the run
@@ -44,8 +46,14 @@ CHILD_KINDS = {
 
 HEADER_POSTPONED = "from __future__ import annotations\n"
 HEADER = '''
+import enum
 from dataclasses import dataclass, field
 from pyoak.node import ASTNode
+
+
+class GUnit(enum.Enum):
+    A = "a"
+    B = "b"
 
 
 @dataclass(frozen=True)
@@ -324,6 +332,24 @@ class World:
             return tuple(self.mkchild(x) for x in v["tuple"])
         raise HarnessError(str(v))
 
+    def op_foreign(self, op: dict[str, Any]) -> str:
+        """Somewhere else (a plugin imported late) a NODE class gets defined whose name is that of a local non-node
+        type used in this hierarchy's annotations: legal, and none of this hierarchy's business."""
+        if self.__dict__.get("_foreign_done"):
+            raise SkipOp("done")
+        self._foreign_done = True
+        mod = types.ModuleType("c12_foreign")
+        mod.__file__ = "<c12 foreign>"
+        sys.modules["c12_foreign"] = mod
+        src = "from dataclasses import dataclass\nfrom pyoak.node import ASTNode\n\n\n@dataclass(frozen=True)\nclass GUnit(ASTNode):\n    n: int = 0\n"
+        try:
+            exec(compile(src, "<c12 foreign>", "exec", dont_inherit=True), mod.__dict__)
+            mod.GUnit(n=1)
+        except Exception as e:  # noqa: BLE001
+            raise HarnessError(f"foreign class does not define: {type(e).__name__}: {e}") from None
+        self.stats.probes["same_named_node_class_defined_elsewhere"] += 1
+        return "ok"
+
     def op_bare(self, op: dict[str, Any]) -> str:
         n = ASTNode()
         list(n.get_properties())
@@ -342,7 +368,9 @@ class World:
             for f in fl:
                 if f["name"] in op["vals"]:
                     v = op["vals"][f["name"]]
-                    if f["kind"] in PROP_KINDS:
+                    if f["kind"] == "unit":
+                        kw[f["name"]] = self.mod.GUnit[v]
+                    elif f["kind"] in PROP_KINDS:
                         kw[f["name"]] = tuple(v) if f["kind"] == "tint" else v
                     else:
                         kw[f["name"]] = self.mkchild(v)
@@ -369,7 +397,7 @@ class World:
             for f in fl:
                 if f["name"] in op["vals"]:
                     v = op["vals"][f["name"]]
-                    kw[f["name"]] = tuple(v) if f["kind"] == "tint" else v
+                    kw[f["name"]] = self.mod.GUnit[v] if f["kind"] == "unit" else tuple(v) if f["kind"] == "tint" else v
             try:
                 o = src.replace(**kw)
             except Exception as e:  # noqa: BLE001
@@ -816,6 +844,8 @@ class Gen:
                 flat.extend(evs)
         if r.random() < 0.4:
             flat.insert(r.randint(0, len(flat)), {"op": "bare"})
+        if r.random() < 0.3:
+            flat.insert(r.randint(0, len(flat)), {"op": "foreign"})
         for op in flat:
             do(op)
         # functional updates of property values (non-comparable ones keep the id)
